@@ -325,6 +325,128 @@ Proof.
   split; vm_compute; reflexivity.
 Qed.
 
+(* ----------------------------------------------------------------------------------------------------------------------
+   Undo steps never span a buffer switch (proofs in BufsSteps.v).  lbuf.c groups the records of the edit log into undo steps
+   by the counter useq, advanced by lbuf_modified(); ex_command() advances it once per command LINE, for the buffer that is
+   current at the end of the line only.  So every way of LEAVING a buffer must end its step (bufs_switch does, repo commit
+   75e4c2f), because one way of ENTERING a buffer does nothing: bufs_shift (`:b !`) just moves the table up.
+   `ok` and `closed` are predicates on the abstract payload: ok = what every line buffer satisfies, closed = no open step;
+   step_laws: closed -> ok, a fresh buffer is closed, lbuf_modified closes, the operations on the CURRENT buffer keep ok.
+   steps_inv s = slot 0 is ok and every other occupied slot is closed; all_closed s = every occupied slot is closed.
+   C20_no_open_step_in_background: at EVERY moment of EVERY session -- after the command lines ls and the first commands cs
+   of the next |-joined line -- every buffer that is not current has its step closed, whichever way it was left
+   (e, e #, ew, b N, b + - % # ^, next, prev, q that switches, b ! of the buffer above it, a 17th :e, b ~).
+   C20_steps_every_command: the invariant is kept by every single command and the end of a line closes everything.
+   C20_switch_closes_all / C20_delete_enters_closed: the two ways into a buffer; after bufs_switch nothing is open, and the
+   buffer that `b !` makes current is closed although bufs_shift calls nothing -- it was closed when it was left. *)
+From Coq Require Import Lia.
+From NV Require Import BufsSteps.
+Theorem C20_no_open_step_in_background : forall (L Op Out : Type) (Lo : lops L Op Out) (ok closed : L -> Prop),
+  step_laws Lo ok closed ->
+  forall files argv (ls : list (list (cmd Op))) (cs : list (cmd Op)) (j : nat) (b : buf L),
+  let s := fst (exec_all Lo (run_lines Lo (fst (ex_init Lo files argv)) ls) cs) in
+  steps_inv ok closed s /\
+  ((1 <= j)%nat -> nth_error (bufs s) j = Some (Some b) -> closed (b_lb b)).
+Proof.
+  intros L Op Out Lo ok closed Laws files argv ls cs j b. cbn zeta. split; [exact (steps_reachable Lo ok closed Laws files argv ls cs)|].
+  exact (background_closed ok closed _ j b (steps_reachable Lo ok closed Laws files argv ls cs)).
+Qed.
+Print Assumptions C20_no_open_step_in_background.
+Theorem C20_steps_every_command : forall (L Op Out : Type) (Lo : lops L Op Out) (ok closed : L -> Prop),
+  step_laws Lo ok closed -> forall (s : st L), steps_inv ok closed s ->
+  (forall c, steps_inv ok closed (fst (ex_exec Lo s c))) /\
+  (forall c, all_closed closed (fst (ex_command Lo s c))) /\
+  (forall cs, all_closed closed (fst (ex_line Lo s cs))) /\
+  (forall ls, steps_inv ok closed (run_lines Lo s ls)).
+Proof.
+  intros L Op Out Lo ok closed Laws s H. split; [intro c; exact (steps_exec Lo ok closed Laws s c H)|].
+  split; [intro c; exact (steps_command Lo ok closed Laws s c H)|]. split; [intro cs; exact (steps_line Lo ok closed Laws s cs H)|].
+  intro ls; exact (steps_run_lines Lo ok closed Laws ls s H).
+Qed.
+Print Assumptions C20_steps_every_command.
+Theorem C20_switch_closes_all : forall (L Op Out : Type) (Lo : lops L Op Out) (ok closed : L -> Prop),
+  step_laws Lo ok closed -> forall (s : st L) (idx : nat), steps_inv ok closed s -> all_closed closed (bufs_switch Lo s idx).
+Proof. intros L Op Out Lo ok closed Laws s idx. exact (switch_all_closed Lo ok closed Laws s idx). Qed.
+Print Assumptions C20_switch_closes_all.
+Theorem C20_delete_enters_closed : forall (L Op Out : Type) (Lo : lops L Op Out) (ok closed : L -> Prop),
+  step_laws Lo ok closed -> forall (s : st L) (b : buf L), steps_inv ok closed s ->
+  all_closed closed (bufs_shift s) /\ (slot0 (fst (ec_buffer_del Lo s)) = Some b -> closed (b_lb b)).
+Proof.
+  intros L Op Out Lo ok closed Laws s b H. split; [exact (shift_all_closed ok closed s H)|]. exact (delete_enters_closed Lo ok closed Laws s b H).
+Qed.
+Print Assumptions C20_delete_enters_closed.
+
+(* The concrete line buffer clb of BufsDefs.v (text, log of (seq, before, after), undo cursor, useq / useq_zero / useq_last):
+   clb_ok l = the undo cursor is inside the log and no record is newer than the counter; clb_closed l = ... and every record
+   is OLDER than the counter (a new change cannot join the last step).  They satisfy the laws, so the theorems above hold
+   for them.  C20_one_undo_after_reentry: a closed buffer takes any number (>= 1) of changes and then ONE undo: the text,
+   the undo cursor, the log below the cursor (the earlier steps are still there, to be undone one by one), the sequence
+   number the dirty test compares and therefore the dirty flag are what they were before these changes.
+   C20_reentry_one_undo: that applies to every background buffer of every reachable state (also in mid-line) and to the
+   buffer `b !` makes current. *)
+Theorem C20_clb_step_laws : step_laws clb_ops clb_ok clb_closed.
+Proof. exact clb_step_laws. Qed.
+Print Assumptions C20_clb_step_laws.
+Theorem C20_one_undo_after_reentry : forall (l : clb) (x0 : content) (news : list content), clb_closed l ->
+  let l' := clb_undo (edits (x0 :: news) l) in
+  c_text l' = c_text l /\ c_hu l' = c_hu l /\ firstn (c_hu l) (c_hist l') = firstn (c_hu l) (c_hist l) /\
+  clb_seq l' = clb_seq l /\ snd (clb_modified l') = snd (clb_modified l) /\ c_useq l' = c_useq l /\ c_zero l' = c_zero l.
+Proof. exact closed_changes_one_undo. Qed.
+Print Assumptions C20_one_undo_after_reentry.
+Theorem C20_reentry_one_undo : forall files argv (ls : list (list (cmd cop))) (cs : list (cmd cop)) (b : buf clb) (x0 : content) (news : list content),
+  let s := fst (exec_all clb_ops (run_lines clb_ops (fst (ex_init clb_ops files argv)) ls) cs) in
+  (forall j, (1 <= j)%nat -> nth_error (bufs s) j = Some (Some b) ->
+     clb_closed (b_lb b) /\
+     (let l' := clb_undo (edits (x0 :: news) (b_lb b)) in
+      c_text l' = c_text (b_lb b) /\ c_hu l' = c_hu (b_lb b) /\ snd (clb_modified l') = snd (clb_modified (b_lb b)))) /\
+  (slot0 (fst (ec_buffer_del clb_ops s)) = Some b ->
+     let l' := clb_undo (edits (x0 :: news) (b_lb b)) in
+     c_text l' = c_text (b_lb b) /\ c_hu l' = c_hu (b_lb b) /\ snd (clb_modified l') = snd (clb_modified (b_lb b))).
+Proof.
+  intros files argv ls cs b x0 news. cbn zeta. split.
+  - intros j. exact (reachable_one_undo files argv ls cs j b x0 news).
+  - exact (delete_then_one_undo _ b x0 news (steps_reachable clb_ops clb_ok clb_closed clb_step_laws files argv ls cs)).
+Qed.
+Print Assumptions C20_reentry_one_undo.
+
+(* The same table code with the bump moved BELOW the rotation (BufsSteps.bufs_switch_entered: "a switch starts a new step for
+   the buffer that is entered") does not keep the invariant: the buffer that is left stays in the background with an open
+   step; `b !` then enters it as it is, and a change + ONE undo takes the earlier change with it and leaves the buffer
+   "unmodified" (the real function: the earlier change [X] is kept and the buffer is still modified). *)
+Theorem C20_switch_entered_refuted :
+  steps_inv clb_ok clb_closed sw_st /\
+  steps_inv clb_ok clb_closed (bufs_switch clb_ops sw_st 1) /\
+  ~ steps_inv clb_ok clb_closed (bufs_switch_entered clb_ops sw_st 1) /\
+  del_change_undo (bufs_switch clb_ops sw_st 1) = Some ([[88%N]], true) /\
+  del_change_undo (bufs_switch_entered clb_ops sw_st 1) = Some ([[97%N]], false).
+Proof. exact switch_entered_breaks. Qed.
+Print Assumptions C20_switch_entered_refuted.
+
+(* the hypotheses are satisfiable, and the scenario itself on the concrete model: files f1 = a1 a2 a3 a4, f2 = b1 b2;
+   `:e! f2`, `:e! f1`, then the lines `1s/$/X/|e! f2` and `b !|3s/$/Y/`, then `u`: only the second change is undone, the
+   buffer is still modified, and q refuses *)
+Example C20_steps_nonvacuous :
+  let f1 := [[97%N; 49%N]; [97%N; 50%N]; [97%N; 51%N]; [97%N; 52%N]] in
+  let s0 := fst (c_init [(nm 1, f1); (nm 2, [[98%N; 49%N]; [98%N; 50%N]])] [nm 1; nm 2]) in
+  let ls := [[CEdit true false (PLit (nm 2))]; [CEdit true false (PLit (nm 1))];
+             [COp (OSubst (Some 1) [88%N]); CEdit true false (PLit (nm 2))]] in
+  let s := run_lines clb_ops s0 ls in
+  let s' := run_lines clb_ops s [[CBufDel; COp (OSubst (Some 3) [89%N])]; [COp OUndo]] in
+  steps_inv clb_ok clb_closed s /\
+  (exists b, nth_error (bufs s) 1 = Some (Some b) /\ b_path b = nm 1 /\ clb_closed (b_lb b) /\ snd (clb_modified (b_lb b)) = true) /\
+  (exists b, slot0 s' = Some b /\ b_path b = nm 1 /\
+     c_text (b_lb b) = [[97%N; 49%N; 88%N]; [97%N; 50%N]; [97%N; 51%N]; [97%N; 52%N]] /\ snd (clb_modified (b_lb b)) = true) /\
+  xquit (fst (c_command s' (CQuit false))) = false.
+Proof.
+  cbn zeta. split.
+  { apply (steps_run_lines clb_ops clb_ok clb_closed clb_step_laws), (steps_init clb_ops clb_ok clb_closed clb_step_laws). }
+  split.
+  { eexists. split; [vm_compute; reflexivity|]. split; [reflexivity|]. split; [|vm_compute; reflexivity].
+    split; [vm_compute; lia|]. cbn. repeat constructor; cbn; lia. }
+  split; [|vm_compute; reflexivity].
+  eexists. split; [vm_compute; reflexivity|]. split; [reflexivity|]. split; vm_compute; reflexivity.
+Qed.
+
 (* ======================================================================================================================
    The table functions of /repo/ex.c ON THE C TEXT.  tools/c2clite.py translates bufs_find, bufs_findroom, bufs_save, bufs_load,
    bufs_switch, bufs_shift, bufs_number, bufs_free, ex_path, ex_filetype (tools/c2clite.d/85_bufs.list) into CLite terms
